@@ -3,13 +3,23 @@ package main
 import (
 	"encoding/binary"
 	"os"
+	"sync/atomic"
 	"syscall"
 )
 
 // curFile is a small shared mapping in which a worker notes the case it is about to run,
 // so the driver can name the input when the worker process dies (fault, fatal error).
 type curFile struct {
-	m []byte
+	m     []byte
+	ticks atomic.Uint64
+}
+
+// Ticks counts cases started (read by the watchdog).
+func (c *curFile) Ticks() uint64 {
+	if c == nil {
+		return 0
+	}
+	return c.ticks.Load()
 }
 
 const curSize = 1 << 20
@@ -35,7 +45,11 @@ func openCur(path string) *curFile {
 
 // Set records harness name, config and case bytes.
 func (c *curFile) Set(harness, config string, data []byte) {
-	if c == nil || c.m == nil {
+	if c == nil {
+		return
+	}
+	c.ticks.Add(1)
+	if c.m == nil {
 		return
 	}
 	m := c.m
